@@ -8,6 +8,48 @@ def run(rep, kf, tier, seed):
     import contracts.responses_c as crc
     engine_b.discharge(rep, kf, [rb.source_table_contract(), rb.add_responses_contract(), crc.response_contract()], "C04", tier, seed)
     run_endpoints(rep, kf, tier, seed, "C04")
+    range_precedence(rep, kf, tier, seed)
     from props.common import run_bounded
     run_bounded(rep, kf, "C04", ["response_type", "response_media", "response_refs"], tier)
     return {"level": "proof"}
+
+
+def range_precedence(rep, kf, tier, seed):
+    """an explicit status code is decoded as documented even when a range key (2XX) for its class is listed before it -- whether
+    or not the generator supports range keys (today: a warning names the key and it is not handled)"""
+    from pyvc import core, engine_b, fragments
+    import contracts.endpoints_f as ef
+    doc = {"openapi": "3.0.3", "info": {"title": "rng", "version": "1"},
+           "paths": {"/rng": {"get": {"operationId": "op_range", "tags": ["r"], "responses": {
+               "2XX": {"description": "", "content": {"application/json": {"schema": {"$ref": "#/components/schemas/Thing"}}}},
+               "201": {"description": "", "content": {"text/plain": {"schema": {"type": "string"}}}},
+               "200": {"description": "", "content": {"application/json": {"schema": {"type": "integer"}}}},
+               "404": {"description": ""}}}}},
+           "components": {"schemas": {"Thing": {"type": "object", "required": ["n"], "properties": {"n": {"type": "integer"}},
+                                                "additionalProperties": False}}}}
+    pkg = fragments.generate_package(doc)
+    try:
+        explicit = {k: v for k, v in doc["paths"]["/rng"]["get"]["responses"].items() if k.isdigit()}
+        try:
+            pkg.module("api.r.op_range")
+        except Exception as e:      # noqa: BLE001
+            rep.add(core.Obligation(id="C04.F.op_range.importable", props=["C04"], unit="operation with a range key before explicit codes",
+                                    backend="native import", status=core.UNDECIDED,
+                                    detail=f"the operation was not generated: {type(e).__name__}: {e}; diagnostics: "
+                                           f"{[(x.header, (x.detail or '')[:60]) for x in pkg.errors][:2]}"))
+            return
+        for entry in ("_parse_response", "_build_response"):
+            r = core.Report("C04", tier, seed)
+            c = ef.parse_response_contract(pkg, doc, "op_range", explicit, "3.0.3", entry, unspecified=[(200, 299)])
+            for case in c.cases:
+                case.name = "range-key-before-explicit-codes." + case.name
+                case.pool = None
+            engine_b.discharge(r, kf, [c], "C04", tier, seed)
+            for o in r.obligations:
+                o.id = o.id.replace(".B.", ".F.")
+                o.backend = "z3 (fragment rendered by the real templates)"
+                o.unit = "templates endpoint_module.py.jinja as rendered for an operation that lists 2XX before 201 / 200"
+                o.where = "openapi_python_client/templates/endpoint_module.py.jinja"
+            rep.merge(r)
+    finally:
+        pkg.cleanup()
